@@ -25,13 +25,16 @@ func VH_C08_WriteRetry() {
 	bufs := [3][]byte{vBytes("a", 2), vBytes("b", 3), vBytes("c", 3)}
 	rewound := false
 	for i := range bufs {
-		k0, n0 := ini.sendCipher.secretKey, ini.sendCipher.nonce
+		k0, n0, w0 := ini.sendCipher.secretKey, ini.sendCipher.nonce, len(wire.out)
 		if i == 1 {
 			wire.failCall = wire.calls + vIntRange("fail_call", 0, 1)
 		}
 		w.Write(bufs[i])
 		wire.failCall = -1
-		if ini.sendCipher.secretKey == k0 && ini.sendCipher.nonce < n0 {
+		// bytes encrypted under the nonces from n0 on reached the wire, yet
+		// the cipher stands at n0 (or before it) again: the next record will
+		// use those nonces a second time
+		if len(wire.out) > w0 && ini.sendCipher.secretKey == k0 && ini.sendCipher.nonce <= n0 {
 			rewound = true
 		}
 	}
